@@ -333,6 +333,25 @@ def sparse_cases(ctx):
                     'tfeatures': 'absent', 'raw': False, 'nsw': 3, 'fill': ctx.seed,
                     'sparse_cols': [r for r, _ in chunk], 'sparse_zero': [z for _, z in chunk]}
             cases.append({'kind': 'sparse', 'spec': spec})
+    # a column table as wide as the probe (3 stored columns on 3 channels): still sparse storage -
+    # the table decides which channel a column is, -1 and signal-free columns are dropped
+    nc = 3
+    rows = [(list(r), None) for r in itertools.permutations(range(nc), 3)]
+    for r in itertools.permutations(range(nc), 2):
+        for pos in range(3):
+            rr = list(r)
+            rr.insert(pos, -1)
+            rows.append((rr, None))
+    for r in itertools.permutations(range(nc), 3):
+        for zc in range(3):
+            rows.append((list(r), zc))
+    prof = [[int(x) for x in np.roll(np.arange(1, nc + 1), k)] for k in range(len(rows))]
+    for wh in ('absent', 'mixing'):
+        spec = {'templates': 'sparse', 'geometry': 'grid', 'n_channels': nc, 'n_templates': len(rows),
+                'n_spikes': len(rows) + 2, 'whitening': wh, 'profile': prof, 'features': 'absent',
+                'tfeatures': 'absent', 'raw': False, 'nsw': 3, 'fill': ctx.seed,
+                'sparse_cols': [r for r, _ in rows], 'sparse_zero': [z for _, z in rows]}
+        cases.append({'kind': 'sparse', 'spec': spec})
     return cases
 
 
